@@ -36,6 +36,11 @@ pub enum MarkdownParserError {
         "Code block starting at line {line} is missing language specifier. Use ```scrut to make this block a Scrut test, or any other language to make Scrut skip this block."
     )]
     MissingLanguageSpecifier { line: usize },
+
+    #[error(
+        "Front-matter or code block starting at line {line} is not closed before the end of the document."
+    )]
+    UnterminatedBlock { line: usize },
 }
 
 /// A parser for Cram `.t` files, which reads [`crate::testcase::TestCase`]s
@@ -79,12 +84,12 @@ impl Parser for MarkdownParser {
         );
 
         let languages: &[&str] = &self.languages.iter().map(|s| s as &str).collect::<Vec<_>>();
-        let iterator = MarkdownIterator::new(languages, text.lines());
+        let mut iterator = MarkdownIterator::new(languages, text.lines());
         let mut line_parser = LineParser::new(self.expectation_maker.clone(), false);
         let mut title_paragraph = vec![];
         let mut config = DocumentConfig::default_markdown();
 
-        for token in iterator {
+        for token in iterator.by_ref() {
             match token {
                 MarkdownToken::DocumentConfig(config_lines) => {
                     let parsed_config = serde_yaml::from_str(&config_lines.join_newline())
@@ -139,6 +144,9 @@ impl Parser for MarkdownParser {
                     title_paragraph.clear();
                 }
             }
+        }
+        if let Some(line) = iterator.unterminated() {
+            anyhow::bail!(MarkdownParserError::UnterminatedBlock { line });
         }
         debug!(
             "found {} testcases in markdown file with configuration: {}",
@@ -201,6 +209,7 @@ pub(crate) struct MarkdownIterator<'a> {
     // state
     line_index: usize,
     content_start: bool,
+    unterminated: Option<usize>,
 }
 
 impl<'a> MarkdownIterator<'a> {
@@ -210,7 +219,24 @@ impl<'a> MarkdownIterator<'a> {
             document_lines,
             line_index: 0,
             content_start: false,
+            unterminated: None,
         }
+    }
+
+    /// Index of the line that opened the front-matter or code block in which
+    /// the document ended, if it ended in one (i.e. it was never closed)
+    pub fn unterminated(&self) -> Option<usize> {
+        self.unterminated
+    }
+
+    /// The next line of a front-matter or code block that started in the line
+    /// with the given index. Notes the block as unterminated if there is none.
+    fn next_inside(&mut self, start: usize) -> Option<&'a str> {
+        let line = self.document_lines.next();
+        if line.is_none() {
+            self.unterminated = Some(start);
+        }
+        line
     }
 }
 
@@ -220,15 +246,16 @@ impl Iterator for MarkdownIterator<'_> {
     fn next(&mut self) -> Option<Self::Item> {
         if let Some(line) = self.document_lines.next() {
             self.line_index += 1;
+            let start = self.line_index - 1;
 
             // found the initial front-matter (=document configuration)?
             if !self.content_start && line == "---" {
-                let mut line = self.document_lines.next()?;
+                let mut line = self.next_inside(start)?;
                 self.line_index += 1;
                 let mut config_content = vec![];
                 while line != "---" {
                     config_content.push((self.line_index - 1, line.to_string()));
-                    line = self.document_lines.next()?;
+                    line = self.next_inside(start)?;
                     self.line_index += 1;
                 }
                 Some(MarkdownToken::DocumentConfig(config_content))
@@ -242,13 +269,13 @@ impl Iterator for MarkdownIterator<'_> {
                     // Record the opening line (i.e. the opening backticks)
                     let starting_line_number = self.line_index - 1;
                     let mut lines = vec![line.to_string()];
-                    let mut line = self.document_lines.next()?;
+                    let mut line = self.next_inside(start)?;
                     self.line_index += 1;
 
                     // Record all lines until the closing backticks
                     while !line.starts_with(backticks) {
                         lines.push(line.to_string());
-                        line = self.document_lines.next()?;
+                        line = self.next_inside(start)?;
                         self.line_index += 1;
                     }
 
@@ -274,12 +301,12 @@ impl Iterator for MarkdownIterator<'_> {
                     vec![]
                 };
 
-                let mut line = self.document_lines.next()?;
+                let mut line = self.next_inside(start)?;
                 self.line_index += 1;
                 let mut comment_lines = vec![];
                 while is_comment(line) {
                     comment_lines.push((self.line_index - 1, line.to_string()));
-                    line = self.document_lines.next()?;
+                    line = self.next_inside(start)?;
                     self.line_index += 1;
                 }
 
@@ -287,7 +314,7 @@ impl Iterator for MarkdownIterator<'_> {
                 let mut code_lines = vec![];
                 while !line.starts_with(backticks) {
                     code_lines.push((self.line_index - 1, line.to_string()));
-                    line = self.document_lines.next()?;
+                    line = self.next_inside(start)?;
                     self.line_index += 1;
                 }
 
